@@ -12,6 +12,8 @@ VARIABLES U, tab      \* CompareNatural: universe and the rows received so far
 
 NatAlphabet == {48, 49, 57, 97, 58, 47}          \* 0 1 9 a : /
 NatUniverse == StrsUpTo(NatAlphabet, 3)
+NatAlphabet2 == {48, 49, 176, 177, 185, 97}      \* 0 1 and bytes that differ from digits only in the high bit
+NatUniverse2 == StrsUpTo(NatAlphabet2, 3)
 SeqSet(q) == {q[i] : i \in DOMAIN q}
 
 TInit == TLCSet(1, 0) /\ l = 1 /\ U = <<>> /\ tab = <<>>
@@ -42,7 +44,7 @@ TStep ==
                    /\ UNCHANGED <<U, tab>>
               [] e.kind = "trunc" -> TruncOK(e.s, e.n, e.out) /\ UNCHANGED <<U, tab>>
               [] e.kind = "natu" ->
-                   /\ SeqSet(e.u) = NatUniverse /\ Len(e.u) = Cardinality(NatUniverse)
+                   /\ SeqSet(e.u) \in {NatUniverse, NatUniverse2} /\ Len(e.u) = Cardinality(SeqSet(e.u))
                    /\ U' = e.u /\ tab' = <<>>
               [] e.kind = "natrow" -> e.i = Len(tab) + 1 /\ tab' = Append(tab, e.row) /\ U' = U
               [] e.kind = "natend" -> TableOK /\ UNCHANGED <<U, tab>>
